@@ -564,8 +564,20 @@ impl Axecutor {
         data: Vec<u8>,
         name: Option<String>,
     ) -> Result<(), AxError> {
+        // The new area must fit below 2^64 and must not intersect any existing area
+        let new_len = data.len() as u64;
+        if new_len > 0 && start.checked_add(new_len - 1).is_none() {
+            return Err(AxError::from(format!(
+                "cannot create memory area {} with start={:#x}, length={:#x}: it does not fit into the address space",
+                name.unwrap_or_else(|| "<unnamed>".to_string()), start, new_len
+            )));
+        }
         for area in &self.state.memory {
-            if start >= area.start && start < area.start + area.length {
+            let intersects = new_len > 0
+                && area.length > 0
+                && start <= area.start + (area.length - 1)
+                && area.start <= start + (new_len - 1);
+            if area.contains(start) || intersects {
                 let overlap_name = area
                     .name
                     .to_owned()
